@@ -246,7 +246,7 @@ def valOutcome (fx : Fix) (xp : XP) (code : Nat) (v : Bytes) : VOut :=
 /-- What one turn of `parse` does with one attribute. -/
 inductive Dec where
   | keep                 -- decoded and added under its code
-  | keepGeneric          -- unknown transitive: kept as GenericAttribute (flag | PARTIAL)
+  | keepGeneric          -- unknown transitive: kept as GenericAttribute ((flag | PARTIAL) & ~EXTENDED_LENGTH, repo commit 8779602)
   | taw                  -- `TreatAsWithdraw` added, the attribute itself is gone
   | disc                 -- `Discard()` added, the attribute itself is gone
   | drop                 -- skipped without a trace
@@ -305,7 +305,7 @@ def withPart (flag : Nat) : Nat := flag + b2n (!(flag / 32 % 2 == 1)) 32
 /-- the effect of one decision on the collection -/
 def applyDec (tb : List Row) (t : Tlv) (st : LoopSt) : Dec → Except Fail LoopSt
   | .keep => .ok { st with kept := st.kept ++ [keptOf t] }
-  | .keepGeneric => .ok { st with kept := st.kept ++ [{ keptOf t with flag := withPart (effFlag tb t) }] }
+  | .keepGeneric => .ok { st with kept := st.kept ++ [{ keptOf t with flag := noExt (withPart (effFlag tb t)) }] }
   | .taw => .ok { st with taw := true }
   | .disc => .ok { st with disc := true }
   | .drop => .ok st
